@@ -106,6 +106,13 @@ func C19() int {
 		os.WriteFile(in, files[jb.file], 0o644)
 		o1, o2 := filepath.Join(dir, "pass1.log"), filepath.Join(dir, "pass2.log")
 		fa := jb.f.Args(ji, "")
+		if ji%2 == 0 {
+			// both output paths already hold an older, longer result
+			stale := bytes.Repeat([]byte(`{"stale":"older and longer output"}`+"\n"), 300+len(files[jb.file])/12)
+			os.WriteFile(o1, stale, 0o644)
+			os.WriteFile(o2, stale, 0o644)
+			c.Count("runs_onto_existing_longer_output_files", 1)
+		}
 		r1 := s.CLI(sut.Run{Args: append(append([]string{"redact"}, fa...), in, "-o", o1), Dir: dir})
 		if ji%3 == 0 && r1.Exit == 0 {
 			// calibrate: pad one input line so that its REDACTED line is exactly k×4096 bytes long — the
